@@ -59,13 +59,23 @@ def pair_of(kind, a, b):
     return (float(a) * float(a), float(b))
 
 
-def make_filter(kind, rho0):
+class FakeProblem:
+    def __init__(self, num_cons):
+        self.num_cons = num_cons
+        self.num_vars = 2
+        self.var_bounded = False
+
+
+NUM_CONS = 2
+
+
+def make_filter(kind, rho0, num_cons=None):
     from pygradflow.params import Params
     from pygradflow import penalty
 
     params = Params(rho=rho0)
     cls = penalty.ObjectivePenaltyFilter if kind == "Objective" else penalty.LagrangianPenaltyFilter
-    return cls(None, params)
+    return cls(FakeProblem(NUM_CONS if num_cons is None else num_cons), params)
 
 
 class RefFilter:
@@ -100,7 +110,8 @@ def cases(tier, seed):
     for kind in ["Objective", "Lagrangian"]:
         for rho0 in [1e-8, 1.0]:
             for api in ["update", "filter_insert"]:
-                out.append({"kind": kind, "rho0": rho0, "api": api, "V": t["V"], "depth": t["depth"]})
+                for nc in ((2,) if api == "filter_insert" else (2, 0)):   # the filter must behave the same on a problem without constraints
+                    out.append({"kind": kind, "rho0": rho0, "api": api, "V": t["V"], "depth": t["depth"], "num_cons": nc})
     # E5: TLC-enumerated state graph of tla/PenaltyFilter.tla, every edge replayed on the implementation
     out.append({"kind": "tlc", "V": [0, 1, 2], "K": 2, "rho0": 1e-8})
     if tier == "thorough":
@@ -215,6 +226,8 @@ def step(kind, api, f, ref, a, b):
 def run_case(case):
     if case.get("kind") == "tlc":
         return tlc_case(case)
+    global NUM_CONS
+    NUM_CONS = case.get("num_cons", 2)
     kind, rho0, api, V, depth = case["kind"], case["rho0"], case["api"], case["V"], case["depth"]
     events = [(a, b) for a in V for b in V]
     viol = []
@@ -292,7 +305,7 @@ def run_case(case):
             break
     return {
         "outcome": "explored" if not viol else "violating",
-        "key": [f"{kind}|{api}|{rho0}|{c}" for c in canon],
+        "key": [f"{kind}|{api}|{rho0}|{NUM_CONS}|{c}" for c in canon],
         "violations": viol[:5],
         "stats": {"states": len(canon), "ordered_states": len(seen), "transitions": transitions,
                   "maxdepth": maxdepth, "sample_trace": trace_sample},
